@@ -55,7 +55,9 @@ class AstPrinter(AstVisitor):
         self.curr_line = 1 if update_ast_line_nos else None
 
     def post_process(self) -> None:
-        self.result = re.sub(r'\s+\n', '\n', self.result)
+        # Trailing blanks are removed by newline(); a regex over the finished text
+        # would also change the contents of multiline strings.
+        pass
 
     def append(self, data: str, node: mparser.BaseNode) -> None:
         self.last_level = node.level
@@ -70,7 +72,7 @@ class AstPrinter(AstVisitor):
         self.append(data + ' ', node)
 
     def newline(self) -> None:
-        self.result += '\n'
+        self.result = self.result.rstrip(' ') + '\n'
         self.is_newline = True
         if self.curr_line is not None:
             self.curr_line += 1
@@ -266,7 +268,7 @@ class AstPrinter(AstVisitor):
             if break_args:
                 self.newline()
         if break_args:
-            self.result = re.sub(r', \n$', '\n', self.result)
+            self.result = re.sub(r', ?\n$', '\n', self.result)
         else:
             self.result = re.sub(r', $', '', self.result)
 
